@@ -244,6 +244,10 @@ func (o *objectGoArrayReflect) defineOwnPropertyIdx(idx valueInt, descr Property
 		}
 		val := descr.Value
 		if val == nil {
+			if i < o.fieldsValue.Len() {
+				// nothing to change: the attributes have been checked and there is no new value
+				return true
+			}
 			val = _undefined
 		}
 		return o.putIdx(i, val, throw)
@@ -259,6 +263,9 @@ func (o *objectGoArrayReflect) defineOwnPropertyStr(name unistring.String, descr
 		}
 		val := descr.Value
 		if val == nil {
+			if idx < o.fieldsValue.Len() {
+				return true
+			}
 			val = _undefined
 		}
 		return o.putIdx(idx, val, throw)
